@@ -192,6 +192,14 @@ impl Ctx {
         if let Value::Object(m) = &mut coverage {
             m.insert("known_findings_hit".into(), Value::Array(known_hits));
             m.insert("violation_signatures".into(), Value::Array(viol_list));
+            m.insert(
+                "environment".into(),
+                json!({
+                    "TZ": std::env::var("TZ").unwrap_or_default(),
+                    "logging_passes": if self.prop == "C20" || std::env::var("VERIF_SINGLE_PASS").is_ok() { vec!["off"] } else { vec!["trace (sink logger, nexrad targets)", "off (reported)"] },
+                    "profile": "opt-level 2, overflow-checks on, debug-assertions off",
+                }),
+            );
             let notes = self.notes.lock().unwrap_or_else(|e| e.into_inner()).clone();
             if !notes.is_empty() {
                 m.insert("notes".into(), json!(notes));
